@@ -26,7 +26,12 @@ def run(ctx):
     ctx.coverage["union_shape_pairs"] = stats
     if not agreed:
         body = "ArcUnion over a pair of payload shapes: implementation vs layout model / property:\n" + "\n".join(str(f) for f in failures[:5])
-        ctx.violation("shape", body, bool(stats.get("monitor_failures")))
+        found = any(f.get("found_input") for f in failures)
+        body = "ArcUnion over a pair of payload shapes: implementation vs layout model / property:\n\n" + "\n\n".join(f["text"] for f in failures[:4])
+        if found:
+            ctx.violation("shape", body, True)
+        else:
+            ctx.defer_nfi(body)
 
 
 def replay(ctx, path):
